@@ -96,6 +96,11 @@ CHECKS = {
          "Mode S enumerates histories of oracle updates (three timestamps, full and partial pair coverage), validator-set refreshes (lower/equal/higher height x configured/other/empty client x same/other set) and oracle-flag toggles on the real UpdateOracle handler, connect x/oracle keeper, codecs and vote aggregator; Mode P executes, at the root (and every depth-1 state in the thorough tier), all 12^n combinations of per-validator vote shapes (absent, signed p/q, missing pair, missing timestamp, bad signature, other chain id / height / round, listed twice, non-commit empty / with extension) x unknown validator, and in every state the sender / update-height / equal-and-older-timestamp variations. Oracle (soundness direction): a changed price implies executor, flag on, height >= recorded set height, distinct known validators with a correctly signed price (by the harness's own signing bookkeeping) holding >= 2/3 of the recorded power, strictly larger timestamp; rejected => digest unchanged; set replaced => configured client and strictly higher height.",
          "Trusted: as C06 plus connect's codecs/aggregator and CometBFT ed25519. Bounded: validator sets (1,1,1), (3,1,1) and (thorough) (2,1,1,1); depth 3 (quick) / 4 (thorough).",
          "DESIGN.md §6 C15"),
+ "C16": ("model_checking",
+         "explicit-state IDDFS over all message types + export/import/differential probe script in every state",
+         "Mode S enumerates histories over every ophost message type (two bridges, deposits, propose/delete/re-propose, claims, two batch-info updates, metadata, oracle flag, role updates, params, time) and every opchild message type (credited and refunded deposits, withdrawals, add/remove validators, params, bridge info, blocks). In every distinct state the module genesis is exported (with auth and bank carried along), validated, round-tripped through JSON, imported into a blank world by the real InitGenesis, re-exported (must be byte-identical), and a fixed probe script (every message type incl. wrong signers, stale/next deposits, claims against two indices, deletes, creation, two blocks; every query type) is run on original and clone: responses, errors, events, validator updates and final exports must be identical. L2: InitGenesis's validator updates applied to an empty CometBFT set = bonded set.",
+         "Trusted: as C11/C06; auth and bank genesis import/export of the SDK. Bounded: depth 4/5 (L1) and 5/6 (L2).",
+         "DESIGN.md §6 C16"),
 }
 NOT_YET = {}
 
